@@ -1317,6 +1317,9 @@ Proof.
     + inv_pair H. apply ms_nil.
 Qed.
 
+(* the kernel must unfold these wrappers, not the fixpoint under them, when it compares the two *)
+Strategy expand [resume_at idle_loop ostart].
+
 Lemma resume_at_micros : forall cfg e st s s' o,
   s_control s = CIdle -> resume_at cfg st s = (s', o) -> micros cfg e s o s'.
 Proof. intros. eapply idle_run_micros; eauto. Qed.
